@@ -16,7 +16,7 @@ RELATED = {
     "C03": [("c08", ["R08.1", "R08.2", "R08.3"]), ("c09", ["R09.1", "R09.2", "R09.3", "R09.5"]), ("c11", ["R11.2"]), ("c12", ["R12.1", "R12.4", "R12.7", "R12.11"]),
             ("c04", ["R04.4", "R04.6", "R04.8", "R04.9", "R04.10"]), ("c14", ["R14.4"]), ("lints", ["L.partial-write", "L.partial-read", "L.try-send", "L.file-create-truncate"])],
     "C04": [("c08", ["R08.7"]), ("c03", ["R03.4"]), ("c14", ["R14.4"]), ("lints", ["L.partial-write", "L.try-send"])],
-    "C05": [("c04", ["R04.10"]), ("c10", ["R10.1", "R10.2", "R10.3", "R10.4", "R10.6", "R10.7"]), ("c09", ["R09.3", "R09.4", "R09.5"]), ("c12", ["R12.6", "R12.7", "R12.8", "R12.9"]), ("c08", ["R08.4"]), ("c11", ["R11.7"]),
+    "C05": [("c11", ["R11.8~truncate_incomplete_record"]), ("c04", ["R04.10"]), ("c10", ["R10.1", "R10.2", "R10.3", "R10.4", "R10.6", "R10.7"]), ("c09", ["R09.3", "R09.4", "R09.5"]), ("c12", ["R12.6", "R12.7", "R12.8", "R12.9"]), ("c08", ["R08.4"]), ("c11", ["R11.7"]),
             ("lints", ["L.partial-read", "L.process-exit"])],
     "C06": [("c15", ["R15.1"]), ("c01", ["R01.3", "R01.4", "R01.9"])],
     "C07": [("c11", ["R11.2"]), ("c01", ["R01.2", "R01.5"]), ("c02", ["R02.3"]), ("c12", ["R12.2", "R12.7"]), ("c03", ["R03.4"]),
@@ -27,7 +27,7 @@ RELATED = {
     "C11": [("c12", ["R12.4", "R12.11"]), ("c08", ["R08.1", "R08.4", "R08.5", "R08.6"]), ("c02", ["R02.4"]), ("c07", ["R07.6"]), ("c03", ["R03.1"]), ("lints", ["L.partial-write", "L.file-create-truncate"])],
     "C12": [("c03", ["R03.3"]), ("lints", ["L.partial-read"])],
     "C13": [],
-    "C14": [("c13", ["R13.2", "R13.6", "R13.7"]), ("c04", ["R04.7", "R04.9"])],
+    "C14": [("c13", ["R13.2", "R13.6", "R13.7"]), ("c04", ["R04.7", "R04.9"]), ("c08", ["R08.2"])],
     "C15": [("c11", ["R11.8~log_cache"]), ("c07", ["R07.2"]), ("c08", ["R08.7"]), ("lints", ["L.try-lock"])],
     "C16": [("c12", ["R12.6"]), ("lints", ["L.process-exit"])],
 }
